@@ -283,6 +283,23 @@ func init() {
 			"external storage = a correct TTL store on the virtual clock",
 		},
 	}
+	idem := []string{"github.com/gofiber/fiber/v3", "github.com/gofiber/fiber/v3/internal/storage/memory"}
+	props["C17"] = PropSpec{
+		ID: "C17",
+		Runs: []HarnessRun{
+			{Rel: "middleware/idempotency", Dir: "idempotency", Entry: "VH_C17_concurrent", Cases: tierCases([]int{0, 16, 32, 2, 8, 12, 13}, []int{0, 16, 32, 1, 2, 3, 8, 24, 9, 10, 11, 12, 13}), Reach: []string{"joined"}, MaxPaths: 300000, ExtraPkgs: idem, Repeat: 3},
+		},
+		Bounds: map[string]string{
+			"quick":    "2 concurrent POST requests (3 for the lock-fault case) with the same idempotency key (last one optionally another key / no key), real MemoryLock or a distributed-lock stub, storage stub with/without injected lookup (Get) faults, lock faults; every interleaving at storage / locker / handler boundaries",
+			"thorough": "2 and 3 concurrent requests for every lock x fault combination",
+		},
+		Assumptions: []string{
+			"Bind().RespHeader into map[string][]string is replaced by 'collect the response headers' (the reflection binder is not interpretable)",
+			"the external lock is modelled as: Lock may fail, Unlock releases the key whoever calls it",
+			"3-thread cases explore schedules with at most 2 preemptions (a thread that could continue is switched out at most twice)",
+			"lifetime/expiry of stored responses is not exercised (no time advance)",
+		},
+	}
 	props["SMOKEFAIL"] = PropSpec{
 		ID: "SMOKEFAIL",
 		Runs: []HarnessRun{
